@@ -171,17 +171,12 @@ Definition lookup_fault (faults : list (nat * fkind)) (k : nat) : option fkind :
 Section Exec.
 Variable lim : option nat.                    (* SetMaxCallStackSize; None = unlimited *)
 Variable faults : list (nat * fkind).         (* the k-th probe() call (0-based) performs the fault *)
-(* [fixed = false]: goja's algorithm as it is on the current tree.
-   [fixed = true] : the repaired algorithm for the open finding F23 (an uncatchable error raised inside an iterator's
-   return() while handleThrow runs in runTryInner's deferred recover leaves the run loop); where the two differ the
-   ghost field [leaked] grows (id 23; it is never read).
-   The former findings are repaired in /repo and the model carries the repaired algorithm: F16 195c9cc (generator / async
-   marker+context pops run on the panic path too), F17 60d9770, F21 82237e3 (a recursive RunProgram whose own pushCtx
-   overflowed does not pop what it never pushed), F22 7d68b51 (a foreign Go panic leaving the outermost call resets prg
-   and drops the pending jobs), F12 22853aa (no iterator.return() on uncatchable unwinding). *)
-Variable fixed : bool.
-(* ghost: which recorded finding (23) the execution ran into *)
-Definition deviate (id : nat) (s : state) : state := set_leaked (id :: leaked s) s.
+(* The model carries goja's algorithm as on the current tree; all findings of this property are repaired in /repo:
+   F16 195c9cc (generator / async marker+context pops run on the panic path too), F17 60d9770, F21 82237e3 (a recursive
+   RunProgram whose own pushCtx overflowed does not pop what it never pushed), F22 7d68b51 (a foreign Go panic leaving the
+   outermost call resets prg and drops the pending jobs), F12 22853aa (no iterator.return() on uncatchable unwinding),
+   F23 bd17f67 (handleRecovered: a panic that leaves handleThrow in a recover is handled again by the same loop).
+   The ghost field [leaked] is kept in the state for the record; nothing writes it any more. *)
 Definition host_panic_exit (s : state) : state :=
   if Nat.eqb (length (cs s)) 0 then
     set_jq [] s
@@ -290,17 +285,16 @@ Definition with_regs_of (s s1 : state) : state :=
        (jq s1) (intr s1) (log s1) (pcount s1) (trace s1) (leaked s1).
 
 (* handleThrow.  [inrec]: it runs in the deferred recover of runTryInner (the exception arrived as a Go panic) rather
-   than inside an instruction (vm.throw).  An uncatchable panic raised inside a return() call leaves handleThrow: inside
-   an instruction it is handled again by the same run loop; out of the deferred recover it leaves the run loop without
-   unwinding to its marker (finding F23; the repaired algorithm handles it in the same loop).
-   Modelling simplification: the second handleThrow starts from the partially unwound state; since try frames are
+   than inside an instruction (vm.throw).  An uncatchable panic raised inside a return() call leaves handleThrow: inside an
+   instruction it is recovered by the same run loop; in a recover, vm.handleRecovered handles it again (bd17f67): in both
+   cases handleThrow runs for the new payload.
+   Modelling simplification: that second handleThrow starts from the partially unwound state; since try frames are
    ordered by call depth it lands where it would from the state before the partial unwinding, which is what the model
    applies it to (checked by the correspondence like everything else). *)
 Definition raise (ex : node -> state -> state * outcome) (inrec : bool) (p : payload) (s : state) : state * outcome :=
   match close_phase ex p s with
   | (s1, ONorm) => handle_throw p s1
-  | (s1, OPanic p') =>
-      if inrec && negb fixed then (deviate 23 s1, OEscaped p') else handle_throw p' (with_regs_of s s1)
+  | (s1, OPanic p') => handle_throw p' (with_regs_of s s1)
   | (s1, _) => (s1, OStuck)
   end.
 
@@ -708,7 +702,7 @@ Definition scen_finish (run late : bool) (r : result) (evs : list nat) (lr : sta
   | (s2, _) => (s2, RStuck)
   end.
 
-Definition api_exec (lim : option nat) (faults : list (nat * fkind)) (fixed : bool) (fuel : nat) (a : api) (s : state) : state * result :=
+Definition api_exec (lim : option nat) (faults : list (nat * fkind)) (fuel : nat) (a : api) (s : state) : state * result :=
   match a with
   | AClear => (set_intr false s, RNormal)
   | AScen run late r evs =>
@@ -716,13 +710,13 @@ Definition api_exec (lim : option nat) (faults : list (nat * fkind)) (fixed : bo
       let s1 := if late then s else set_log (log s ++ evs) s in
       match r with
       | RNormal | RError PCatch =>
-          scen_finish run late r evs (leave lim faults fixed fuel (if run then set_cs (halt_ctx :: cs s1) s1 else s1))
+          scen_finish run late r evs (leave lim faults fuel (if run then set_cs (halt_ctx :: cs s1) s1 else s1))
       | _ => (leave_abrupt s1, r)
       end
-  | ARun body => of_go (exec lim faults fixed fuel (NRun false body) s)
-  | ACall body => of_go (exec lim faults fixed fuel (NCallable false body) s)
+  | ARun body => of_go (exec lim faults fuel (NRun false body) s)
+  | ACall body => of_go (exec lim faults fuel (NCallable false body) s)
   | ATry acts =>
-      match vm_try (run_acts (exec lim faults fixed fuel) acts) s with
+      match vm_try (run_acts (exec lim faults fuel) acts) s with
       | (s', ONorm) => (s', RNormal)
       | (s', OUnwound p) => (s', RError p)
       | (s', OPanic p) => (s', RHostPanic)
